@@ -28,7 +28,7 @@ BCTOR = {'+': 'add', '-': 'sub', '*': 'mul', '/': 'div', '%': 'mod', 'neg': 'neg
          'isinstance:list': 'isList', 'isinstance:tuple': 'isTuple', 'isinstance:dict': 'isDict',
          'isinstance:Counter': 'isCounter', 'Counter': 'counter', 're.compile': 'reCompile', '.union': 'union',
          '.get': 'get', '.items': 'items', '.keys': 'keys', '.most_common': 'mostCommon', '.lower': 'lower',
-         '.count': 'count', 'deepcopy': 'deepcopy', 'enumerate': 'enumerate'}
+         '.count': 'count', 'deepcopy': 'deepcopy', 'enumerate': 'enumerate', '.strip': 'strip'}
 
 # lean name -> (module, locator[, extra parameters: closure variables / attributes of self the function reads]).  A locator is a path of names through classes / functions; the special
 # head 'AGGREGATORS' reads entry <key>, component <func|finaliser> of join's aggregator table.
@@ -47,6 +47,7 @@ FUNCTIONS = [
     ('deduper', 'dataflows.processors.deduplicate', ['deduper']),
     ('unpivot_rows', 'dataflows.processors.unpivot', ['unpivot_rows']),
     ('load_limiter', 'dataflows.processors.load', ['load', 'limiter'], ['self.limit_rows']),
+    ('load_stripper', 'dataflows.processors.load', ['load', 'stripper']),
     # the row-phase dispatch loops of the selector-taking processors ('@for:k' = the k-th `for` statement of the body)
     ('loop_filter_rows', 'dataflows.processors.filter_rows', ['filter_rows', 'func', '@for:-1']),
     ('loop_deduplicate', 'dataflows.processors.deduplicate', ['deduplicate', 'func', '@for:-1']),
